@@ -20,7 +20,12 @@ __CPROVER_requires(TN_WELLFORMED(left) && TN_WELLFORMED(right))
 /* accepted => arguments fine, no callee failed, a new hash object owned by the caller */
 __CPROVER_ensures(IMPLIES(__CPROVER_return_value == KSI_OK,
 		JH_ARGS_OK && g_tr_failed == __CPROVER_old(g_tr_failed) &&
-		__CPROVER_is_fresh(*root, sizeof(KSI_DataHash)) && (*root)->ref == 1 && *root == g_tr_result))
+		__CPROVER_is_fresh(*root, sizeof(KSI_DataHash)) && (*root)->ref == 1))
+/* (audit builderY) the ghost pointer g_tr_result is stated with an unconditional __CPROVER_pointer_equals (an assignment), not with the former assumed
+ * '*root == g_tr_result': dfcc havocs a pointer-typed assigns target of a replaced contract with ONE symbol per target shared by all calls on a path,
+ * so two SUCCESSFUL calls (two fresh objects) contradicted each other - in C19.pin 'both leaf processors add a node' was infeasible (REACH guard there).
+ * On refusal the last close result stays what it was (the close stub of env/tree_env.h writes it on success only). */
+__CPROVER_ensures(__CPROVER_pointer_equals(g_tr_result, __CPROVER_return_value == KSI_OK ? (void *)*root : (void *)__CPROVER_old(g_tr_result)))
 /* refused => a reason, and the out-parameter is untouched; bad arguments are refused before the hasher is touched */
 __CPROVER_ensures(IMPLIES(__CPROVER_return_value != KSI_OK,
 		(!JH_ARGS_OK || g_tr_failed || __CPROVER_return_value == KSI_OUT_OF_MEMORY) && (root == NULL || *root == __CPROVER_old(*root))))
